@@ -1,7 +1,10 @@
 package main
 
 import (
+	"context"
 	"fmt"
+	"github.com/spikeekips/mitum/isaac"
+	"github.com/spikeekips/mitum/util"
 
 	"github.com/spikeekips/mitum/base"
 )
@@ -71,5 +74,76 @@ func runC02(c *Ctx) error {
 	}
 	c.Extra("exhaustive_grid", c.Thorough())
 	c.Extra("mismatches", mismatch)
+	// the threshold as text (voteproofs and parameters carry it as text): writing and reading it back must not change a
+	// single count
+	for t10 := uint64(510); t10 <= 1000; t10++ {
+		th := base.Threshold(float64(t10) / 10)
+		b, err := th.MarshalText()
+		var back base.Threshold
+		if err == nil {
+			err = back.UnmarshalText(b)
+		}
+		c.Eval(1)
+		if err != nil {
+			c.Violation("C02:threshold-text-round-trip", fmt.Sprintf("threshold %.1f: %v", float64(t10)/10, err), map[string]uint64{"t10": t10})
+			continue
+		}
+		for _, n := range []uint64{10, 100, 1000, 9973} {
+			if got, want := uint64(back.Threshold(uint(n))), requiredExact(n, t10); got != want {
+				c.Violation("C02:threshold-text-round-trip", fmt.Sprintf("threshold %.1f written as %q and read back requires %d of %d votes, exact ceil=%d", float64(t10)/10, string(b), got, n, want),
+					map[string]uint64{"n": n, "t10": t10, "got": got, "want": want})
+				break
+			}
+		}
+	}
+	// a call site: the node signs a suffrage-expel operation needs are DefaultThreshold.Threshold(n), also for large n
+	// (where n - (n-1)/3 is one too few)
+	env, err := newPoolEnv()
+	if err != nil {
+		return err
+	}
+	sizes := []int{4, 10, 103}
+	if c.Thorough() {
+		sizes = []int{4, 7, 10, 31, 100, 103, 106, 199}
+	}
+	for _, n := range sizes {
+		lns := make([]base.LocalNode, n)
+		nodes := make([]base.Node, n)
+		for i := range lns {
+			lns[i] = base.RandomLocalNode()
+			nodes[i] = lns[i]
+		}
+		suf, err := isaac.NewSuffrage(nodes)
+		if err != nil {
+			return err
+		}
+		required := int(requiredExact(uint64(n), 670))
+		for _, signs := range []int{required - 1, required} {
+			pool, err := env.newPool()
+			if err != nil {
+				return err
+			}
+			sv := isaac.NewSuffrageVoting(lns[0].Address(), pool, func(util.Hash) (bool, error) { return false, nil }, func(base.SuffrageExpelOperation) error { return nil })
+			fact := isaac.NewSuffrageExpelFact(lns[n-1].Address(), base.Height(33), base.Height(34), "no response")
+			op := isaac.NewSuffrageExpelOperation(fact)
+			for i := 0; i < signs; i++ {
+				_ = op.NodeSign(lns[i].Privatekey(), hNetworkID, lns[i].Address())
+			}
+			if _, err := sv.Vote(op); err != nil {
+				return err
+			}
+			found, err := sv.Find(context.Background(), base.Height(33), suf)
+			_ = pool.Close()
+			if err != nil {
+				return err
+			}
+			c.Eval(1)
+			c.Count("expel-sign-count", fmt.Sprintf("n=%d signs=%d found=%d", n, signs, len(found)))
+			if (signs >= required) != (len(found) == 1) {
+				c.Violation("C02:call-site-counts-differently", fmt.Sprintf("suffrage of %d nodes, threshold 67%%: an expel operation with %d node signs is found=%v, required is ceil(n*67/100)=%d", n, signs, len(found) == 1, required),
+					map[string]int{"n": n, "signs": signs, "required": required})
+			}
+		}
+	}
 	return nil
 }
